@@ -370,7 +370,10 @@ func (c *decoratorController) updateParentObject(old, cur interface{}) {
 				// or if there is a deletion timestamp attached to the object, otherwise it will be ignored.
 				if parent.IgnoreStatusChanges != nil && *parent.IgnoreStatusChanges {
 					if parentCur, ok := cur.(*unstructured.Unstructured); ok {
-						if parentOld.GetGeneration() == parentCur.GetGeneration() {
+						// An event that carries the same object twice is not a change at all but a resync, or the
+						// replay of the cache to a handler that has just been added: it must get through.
+						if parentOld.GetGeneration() == parentCur.GetGeneration() &&
+							parentOld.GetResourceVersion() != parentCur.GetResourceVersion() {
 							if reflect.DeepEqual(parentOld.GetLabels(), parentCur.GetLabels()) &&
 								reflect.DeepEqual(parentOld.GetAnnotations(), parentCur.GetAnnotations()) &&
 								parentCur.GetDeletionTimestamp() == nil {
